@@ -12,6 +12,7 @@
 
 #include <stddef.h>
 #include <stdint.h>
+#include <string.h>
 
 #define MAXV 8192
 
@@ -61,6 +62,7 @@ static int flav_sink_octet(void *d, unsigned char o) { FlavSink *k = d; return (
 static inline void flav_sink_init(Sink *s, FlavSink *k, ChunkSink f, void *drv, int flavour)
 {
     k->f = f; k->drv = drv;
+    memset(s, 0xA5, sizeof *s);       /* the init calls must set every field */
     if (flavour % 3 == 1) chunk_sink_init(s, flav_sink_one, k);
     else if (flavour % 3 == 2) octet_sink_init(s, flav_sink_octet, k);
     else chunk_sink_init(s, f, drv);
@@ -71,6 +73,7 @@ static ssize_t flav_osource_chunk(void *d, void *b, size_t n) { FlavOSource *k =
 static inline void flav_osource_init(Source *s, FlavOSource *k, ByteSource f, void *drv, int flavour)
 {
     k->f = f; k->drv = drv;
+    memset(s, 0xA5, sizeof *s);
     if (flavour % 2 == 1) chunk_source_init(s, flav_osource_chunk, k);
     else octet_source_init(s, f, drv);
 }
